@@ -43,7 +43,7 @@ fn cache_put(k: String, v: String) {
     g.get_or_insert_with(HashMap::new).insert(k, v);
 }
 
-const CHILD_TIMEOUT_S: f64 = 20.0;
+const CHILD_TIMEOUT_S: f64 = 10.0;
 
 /// Like `vharness::run_isolated`, but drains the child's stdout while it runs (a batch
 /// response can exceed the pipe buffer, which would block the child until the watchdog fires).
